@@ -26,6 +26,16 @@ CLAIMED = {
    note='Trusted: Coq kernel; extraction+driver; hook; f64 conversion of probabilities and {:.2} float formatting are oracles (either neighbour accepted within 5e-13 of a rounding tie). Interrupts, the exact flag and terminal bars are outside the model.',
    technique='Coq proof by induction over dice expressions in Q + differential correspondence with exact parts',
    ref='DESIGN.md §8 C17, notes/C17.md'),
+ 'C19': dict(
+   text='Partial by nature. Proved (coq/Properties/C19.v, 14 theorems, no axioms) for all argument lists, all core behaviours and all TOML value trees: the argument fold of args.rs (positional joined by one space, -e/-f/--, file precedence, help > version > default-config > repl/eval), eval_exprs prints exactly the core result of the last expression (trailing-newline flag honoured), stops at the first error with exit 1 and "Error: …" on stderr, exit 0 iff all succeed, variables carry over, stdin mode = one expression; the config visitors are total, malformed config gives the default, unknown keys are ignored and listed. Oracles (premises, not axioms): process/stdio, file system, fend_core, the toml crate, terminal detection. Tie: the built fend binary (from /repo, feature on) on random argument lists, stdin mode, generated and mutated TOML configs vs the model fed with in-process fend_core results; three defects found here were repaired by fix: commits and their witnesses stay in the corpus.',
+   note='Trusted: Coq kernel; extraction+driver; h_cli harness and the --verif-hook ops; colours and the REPL are not modelled (colours only through strip-the-escapes comparison and two fixed-witness checks).',
+   technique='Coq proof of the CLI decision logic over oracles + differential execution of the real binary',
+   ref='DESIGN.md §8 C19, notes/C19.md'),
+ 'C20': dict(
+   text='Theorems for ALL byte strings (coq/Properties/C20.v, 16 theorems, no axioms): the repaired EU parser and the UN parser never panic (every split_at / slice / find site explicit; UN under the UTF-8 premise proved from validity), cache framing and expiry are total, every returned (currency, rate-token) occurs verbatim in the file, and a prefix of a file never yields a rate the intact file did not contain (EU needs >= 10 entries; UN only the exact trailer); the original EU parser is refuted with a computed witness (the defect repaired by fix 348454e). f64 parsing of the rate token is an oracle whose one used fact (empty token is not a normal number) is checked against the real parser on every run. Tie: every prefix and every single-character substitution of representative EU and UN cache files through the parser hook (parsed list vs model) and through the real binary doing a conversion with FEND_CACHE_DIR (stdout/stderr/exit vs model prediction).',
+   note='Trusted: Coq kernel; extraction+driver; --verif-hook rates op (includes exchange_rates.rs into a private module); no network in the sandbox (cache miss = DNS error, exit 1); system clock for freshness (edits near the expiry boundary are skipped and counted).',
+   technique='Coq proof over byte strings (explicit panic sites, prefix monotonicity) + differential execution of hook and binary on all truncations',
+   ref='DESIGN.md §8 C20, notes/C20.md'),
  'C06': dict(
    text='Partial by nature. Proved (coq/Properties/C06.v): panic-freedom of the modelled functions reachable from evaluate/preview/inline (JSON escaper and inline JSON for all Unicode text, superscript-exponent accumulation for digit strings of any length in checked and unchecked builds, the i^y selector); the other areas add their own no-panic theorems in their property files. Observed, not proved: everything else, by crash probes on the default build (feature off) in debug (overflow checks) and release profiles over 48 context configurations: suite+manual corpus read from /repo, mutations, token soup, every typed prefix, bounded nesting ramps. Native stack exhaustion is reachable (two open known findings).',
    note='Trusted: Coq kernel; extraction+driver; harness_plain; 8 MiB stack / 4 GiB address-space limits of the probe workers. Hangs and >=128 MiB allocation failures are counted as resource exhaustion (C07), not crashes. Models tied by correspondence (superscripts vs evaluate).',
